@@ -151,6 +151,7 @@ class StepState:
         self.finishes = True  # False if the step never ends by itself
         self.why = ""
         self.items = None  # foreach: list of per-item RefSem
+        self.cancelled_while_running = False
         self.stuck_at = None  # stage whose input can never be provided (the step then waits until the run ends)
 
     def set_all(self, keys, status):
@@ -368,6 +369,25 @@ class RefSem:
             return st
         st.out[("enabling", "resolved")] = (AVAIL, {"enabled": True})
         st.out[("disabled", "output")] = (IMPOSSIBLE, None)
+        # stop condition (only deterministic constructions are interpreted, see DESIGN C04)
+        stopped_while = False
+        if s.field("stop_if") is not None:
+            sstatus, sv = self.avail({"stop_if": s.field("stop_if")})
+            fires = sstatus == AVAIL and sv.get("stop_if") not in (False, None, ABSENT, "false")
+            mode = getattr(s, "stop_mode", None)
+            if fires and mode == "before":
+                st.out[("closed", "result")] = (AVAIL, {"cancelled": True, "close_requested": False})
+                st.set_all(PLUGIN_OUTS, IMPOSSIBLE)
+                st.why = "stopped before start"
+                return st
+            if fires and mode == "while":
+                stopped_while = True
+            elif fires or sstatus == PENDING:
+                st.why = "stop condition with schedule-dependent timing"
+                for k in PLUGIN_OUTS:
+                    if k not in st.out:
+                        st.out[k] = ("unknown", None)
+                return st
         # 3. starting
         tree = {}
         for f in ("input", "wait_for", "closure_wait_timeout"):
@@ -392,6 +412,17 @@ class RefSem:
             es = sc["exec_by_tag"][tag]
         outcome = es.get("outcome") or "success"
         concrete = concretise(st.exec_input)
+        st.cancelled_while_running = stopped_while
+        if stopped_while and outcome == "hang":
+            oc = es.get("on_cancel") or "error"
+            if oc == "error":
+                st.out[("outputs", "error")] = (AVAIL, {"reason": "cancelled " + s.src})
+            elif oc == "success":
+                st.out[("outputs", "success")] = (AVAIL, success_data(s.src, concrete))
+            else:  # ignores the signal: force-closed after closure_wait_timeout -> crashed
+                st.out[("crashed", "error")] = (AVAIL, {"output": ANYSTR})
+            st.set_all(PLUGIN_OUTS, IMPOSSIBLE)
+            return st
         if outcome == "success":
             st.out[("outputs", "success")] = (AVAIL, es.get("data") if es.get("data") is not None else success_data(s.src, concrete))
         elif outcome == "error":
